@@ -75,4 +75,82 @@ def wrapC (bits : Nat) (signed : Bool) (v : Int) : Int :=
 def cRange (bits : Nat) (unsigned : Bool) : Int × Int :=
   if unsigned then (0, 2 ^ bits - 1) else (-(2 ^ (bits - 1)), 2 ^ (bits - 1) - 1)
 
+/-! ## Folding of the unary operators `!  ~  -` on a known operand value (`setTokenValue`, lib/vf_settokenvalue.cpp)
+
+Copied branch by branch.  The operand is described as the code sees it: its `ValueType` (sign, type, not a pointer) and the
+platform's `int_bit` / `long_bit`.  Unary `+` has no branch: no value reaches the operator token. -/
+
+/-- `ValueType::Type` of an integral operand -/
+inductive ITy | bool | char | short | int | long | longlong
+  deriving DecidableEq, Repr, Inhabited
+
+inductive UnOp | lnot | bnot | neg | plus
+  deriving DecidableEq, Repr, Inhabited
+
+/-- the value `setTokenValue` computes for the operator token from the operand value `v` (a bigint):
+    * `!`: `v.intvalue = !v.intvalue`
+    * `~`: `v.intvalue = ~v.intvalue`, then masked with `(1ULL<<bits)-1` where `bits` is `int_bit` for an operand of type
+           `unsigned int`, `long_bit` for `unsigned long`, and 0 (no mask) for every other operand type; the mask is
+           applied only if `0 < bits < 64`
+    * `-`: `LLONG_MIN` is skipped, otherwise `-v`
+    `none`: no value is set. -/
+def foldUnary (op : UnOp) (v : Int) (opUnsigned : Bool) (opTy : ITy) (intBit longBit : Nat) : Option Int :=
+  match op with
+  | .lnot => some (if v = 0 then 1 else 0)
+  | .bnot =>
+    let r : Int := -v - 1                                       -- ~ on a 64-bit two's complement value
+    let bits : Nat :=
+      if opUnsigned then (if opTy = .int then intBit else if opTy = .long then longBit else 0) else 0
+    if 0 < bits ∧ bits < 64 then some (toI64 (toU64 r &&& (2 ^ bits - 1))) else some r
+  | .neg => if v = -(2 ^ 63) then none else some (-v)
+  | .plus => none
+
+/-- the head of `setTokenValue` for the operator token: a negative value on a token of unsigned type of at least 8 bytes
+    is dropped -/
+def setGuard (v : Option Int) (tokUnsigned : Bool) (tokSize : Nat) : Option Int :=
+  match v with
+  | some x => if x < 0 && tokUnsigned && tokSize ≥ 8 then none else some x
+  | none => none
+
+/-- the `*_bit` members of `Platform` -/
+structure IntShape where
+  charBit : Nat
+  shortBit : Nat
+  intBit : Nat
+  longBit : Nat
+  llongBit : Nat
+  deriving DecidableEq, Repr, Inhabited
+
+def IntShape.bits (s : IntShape) : ITy → Nat
+  | .bool => 1 | .char => s.charBit | .short => s.shortBit | .int => s.intBit | .long => s.longBit | .longlong => s.llongBit
+
+/-- every platform shape the C standard admits within cppcheck's 64-bit bigint -/
+def IntShape.sane (s : IntShape) : Bool :=
+  decide (8 ≤ s.charBit) && decide (s.charBit < s.intBit) && decide (s.charBit ≤ s.shortBit) && decide (s.shortBit ≤ s.intBit) &&
+  decide (s.intBit ≤ s.longBit) && decide (s.longBit ≤ s.llongBit) && decide (s.llongBit ≤ 64)
+
+/-! ### Specification: C17 6.3.1.1p2 (integer promotions) and 6.5.3.3 -/
+
+/-- promoted type (bits, unsigned) of an operand of `bits` bits: a type narrower than `int` becomes `int`; a type of the
+    width of `int` or more keeps width and signedness (for `unsigned short` as wide as `int` that is `unsigned int`) -/
+def promote (opBits : Nat) (opUnsigned : Bool) (intBit : Nat) : Nat × Bool :=
+  if opBits < intBit then (intBit, false) else (opBits, opUnsigned)
+
+/-- value of `op x` for `x` of value `v`; the operator is applied in the promoted type -/
+def cUnary (op : UnOp) (v : Int) (opBits : Nat) (opUnsigned : Bool) (intBit : Nat) : Int :=
+  let (b, u) := promote opBits opUnsigned intBit
+  match op with
+  | .lnot => if v = 0 then 1 else 0
+  | .bnot => if u then 2 ^ b - 1 - v else -v - 1
+  | .neg => if u then (2 ^ b - v) % 2 ^ b else -v
+  | .plus => v
+
+/-- `v` is a value of the type -/
+def inType (v : Int) (bits : Nat) (unsigned : Bool) : Bool :=
+  if unsigned then decide (0 ≤ v) && decide (v < 2 ^ bits) else decide (-(2 ^ (bits - 1)) ≤ v) && decide (v < 2 ^ (bits - 1))
+
+/-- `v` is a value an operand of this type can have (`bool`: 0 or 1; cppcheck gives `bool` no sign) -/
+def inOperand (v : Int) (s : IntShape) (ty : ITy) (unsigned : Bool) : Bool :=
+  if ty = .bool then (v == 0 || v == 1) && !unsigned else inType v (s.bits ty) unsigned
+
 end Cppcheck.Trunc
